@@ -58,8 +58,9 @@ def run(prop, part, cfg, seed, workdir):
                     m["classes"][c] = m["classes"].get(c, 0) + n
                 if len(m["samples"]) < 3:
                     m["samples"].extend(s.get("samples", [])[:3 - len(m["samples"])])
-            except Exception:
-                pass
+            except Exception as e:  # never swallow: an unreadable stats file means the part decided nothing
+                failures.append(dict(sub=t, key=f"{t}/stats-unreadable", msg=f"cannot read fuzz statistics: {e!r}", case=None,
+                                     harness=t, engine="fz", gave_up=True))
         else:
             mm = re.search(r"stat::number_of_executed_units:\s*(\d+)", logtxt)
             if mm:
